@@ -51,11 +51,20 @@ struct c05_session : public vsim_session {
   // metadump <bias> <grids 0|1>
   bool exec_extra(std::string const &cmd, std::vector<std::string> const &a, std::istream &) override
   {
-    if (cmd != "metadump" && cmd != "metatraj") return false;
+    if (cmd != "metadump" && cmd != "metatraj" && cmd != "metatarget") return false;
     std::ostream &o = *out;
     colvarbias *b0 = cvm::bias_by_name(a[0]);
     colvarbias_meta *b = dynamic_cast<colvarbias_meta *>(b0);
     if (!b) { o << "META none\n"; return true; }
+    if (cmd == "metatarget") {
+      // ebMeta: the target distribution as used (after the normalisation done at initialisation)
+      o << "TARGET";
+      if (b->ebmeta && b->target_dist) {
+        for (size_t k = 0; k < b->target_dist->data.size(); k++) o << " " << vs_hex(b->target_dist->data[k]);
+      }
+      o << "\n";
+      return true;
+    }
     if (cmd == "metatraj") {
       // the buffered hills trajectory (writeHillsTrajectory on): one line per add_hill, in order
       std::istringstream is(b->hills_traj_os_buf.str());
